@@ -250,7 +250,10 @@ def rule_r2(chk, p, t):
         bad = []
         tb = defs.get("a_third_body")
         elt = tb.args[0].elt if isinstance(tb, ast.Call) and tb.args and isinstance(tb.args[0], (ast.ListComp, ast.GeneratorExp)) else None
-        if elt is None or canon(elt) != canon(ast.parse("body.mu * _getThirdBodyAcceleration(r_eci, position)", mode="eval").body) or [unparse(x) for x in tb.args[0].generators[0].target.elts] != ["body", "position"]:
+        tnames = None
+        if elt is not None and isinstance(tb.args[0].generators[0].target, ast.Tuple) and len(tb.args[0].generators[0].target.elts) == 2 and all(isinstance(x, ast.Name) for x in tb.args[0].generators[0].target.elts):
+            tnames = [x.id for x in tb.args[0].generators[0].target.elts]  # (body, position) under whatever spelling
+        if elt is None or tnames is None or canon(elt) != canon(ast.parse(f"{tnames[0]}.mu * _getThirdBodyAcceleration(r_eci, {tnames[1]})", mode="eval").body) or "items()" not in unparse(tb.args[0].generators[0].iter):
             bad.append(f"third-body term `{unparse(elt) if elt is not None else None}` (expected body.mu * acc(r_eci, position))")
         srp = defs.get("a_srp")
         body = srp.body if isinstance(srp, ast.IfExp) else None
